@@ -75,8 +75,8 @@ PROPS["C09"] = dict(
                "(checked against the implementation on ~5.5e5 ops per run), float32 order embedding; NaN excluded; int8 edge cases stated explicitly.",
     technique="Lean 4 proof (order embedding + omega) over a hand-written model, differential correspondence impl/model/spec",
     modules=["Morlock.Props.C09"],
-    streams=["score"],
-    rule="all ordered pairs over {256 mate bytes, +inf, -inf, invalid, ~40 float32 keys incl. ±0, subnormals, ±max, ±Inf} "
+    streams=["score", "c09win"],
+    rule="(c09win: 30 / 600 searches under one-sided windows - the result is a score of the order, the clipped value) all ordered pairs over {256 mate bytes, +inf, -inf, invalid, ~40 float32 keys incl. ±0, subnormals, ±max, ±Inf} "
          "x {less,max,min,antitone,incmono,trichotomy} + sampled triples for transitivity; "
          "a pair is non-trivial and distinct when its two scores differ (keyed by the pair)",
     partial=["NaN is outside the property (constructible scores are finite or ±Inf floats)",
@@ -535,8 +535,9 @@ PROPS["C17"]["extra"] = [race_step(dict(
     quick=["ttstress 65536 4 3 2 20000 $SEED", "ttstress 1024 5 2 4 20000 $SEED", "resetrace 12 1"],
     thorough=["ttstress 65536 4 3 2 200000 $SEED", "ttstress 1024 6 4 4 200000 $SEED", "ttstress 64 8 4 2 200000 $SEED", "ttstress 4096 6 3 200 200000 $SEED", "resetrace 60 1", "resetrace 40 2"]))]
 PROPS["C16"]["extra"] = [race_step(dict(
-    quick=["noiserace 15 10"],
-    thorough=["uci plain 0 ; gate 200 ;; > position startpos ;; > go depth 4 ;; wait-parked ;; slow 200 ;; > position startpos moves e2e4 ;; > go depth 2 ;; sleep 20 ;; release ;; wait-bestmove 20000 ;; quiet 1500 ;; sync",
+    quick=["noiserace 15 10", "supersede sargon 30 2 e2e4 e7e5"],
+    thorough=["supersede sargon 200 2 e2e4 e7e5", "supersede turochamp 60 1 e2e4 e7e5", "supersede bernstein 60 2 d2d4 d7d5",
+              "uci plain 0 ; gate 200 ;; > position startpos ;; > go depth 4 ;; wait-parked ;; slow 200 ;; > position startpos moves e2e4 ;; > go depth 2 ;; sleep 20 ;; release ;; wait-bestmove 20000 ;; quiet 1500 ;; sync",
               "uci morlock 0 ; slow 50 ;; > position startpos ;; > go infinite ;; sleep 200 ;; > stop ;; wait-bestmove 20000 ;; > position startpos moves e2e4 ;; > go depth 3 ;; wait-bestmove 20000 ;; > quit ;; wait-closed",
               "uci sargon 0 ; slow 50 ;; > position startpos moves e2e4 e7e5 ;; > go depth 2 ;; sleep 30 ;; > go depth 1 ;; wait-bestmove 30000 ;; close ;; wait-closed"]))]
 PROPS["C18"]["extra"] = [race_step(dict(
